@@ -63,6 +63,11 @@ Theorem C03_cov_code_is_spec : forall X i j, cov_code X i j == cov_spec X i j.
 Proof. exact cov_code_is_spec. Qed.
 Print Assumptions C03_cov_code_is_spec.
 
+(* (the checker evaluates the same rational with reduced fractions) *)
+Theorem C03_cov_eval_is_code : forall X i j, cov_eval X i j == cov_code X i j.
+Proof. exact cov_eval_is_code. Qed.
+Print Assumptions C03_cov_eval_is_code.
+
 (* ... which is symmetric ... *)
 Theorem C03_cov_symmetric : forall X i j, cov_code X i j == cov_code X j i.
 Proof. exact cov_symmetric. Qed.
